@@ -77,7 +77,8 @@ Inductive qcls := QGeneric | QMySQL | QPostgres | QMSSQL.
 
 (* a stored join: its item and, for JoinOn, criterion.tables_ (the Table instances of its fields);
    JoinUsing / Join have no .criterion attribute *)
-Record jrec := mkJ { j_item : tbl; j_crit : option (list ptab) }.
+Record jrec := mkJ { j_item : tbl; j_crit : option (list ptab); j_alq : list tbl }.
+(* j_alq: the AliasedQuery objects among the tables of the criterion's fields (JoinOn.validate_with) *)
 
 Record qst := mkQ {
   q_cls : qcls;
@@ -91,6 +92,8 @@ Record qst := mkQ {
   q_groupbys : bool;               (* bool(_groupbys) *)
   q_mysql_rollup : bool;           (* _mysql_rollup *)
   q_joins : list jrec;             (* _joins *)
+  q_values : bool;                 (* bool(_values) *)
+  q_updates : bool;                (* bool(_updates) *)
   my_dups : nat;                   (* MySQL len(_duplicate_updates) *)
   my_ignore : bool;                (* MySQL _ignore_duplicates *)
   pg_conflict : bool;              (* PostgreSQL _on_conflict *)
@@ -101,18 +104,20 @@ Record qst := mkQ {
 }.
 
 Definition q_init (c : qcls) : qst :=
-  mkQ c [] None None false [] 0 false false false [] 0 false false 0 false 0 false.
+  mkQ c [] None None false [] 0 false false false [] false false 0 false false 0 false 0 false.
 
-Definition set_from s v := mkQ (q_cls s) v (q_insert s) (q_update s) (q_delete s) (q_with s) (q_selects s) (q_star s) (q_groupbys s) (q_mysql_rollup s) (q_joins s) (my_dups s) (my_ignore s) (pg_conflict s) (pg_fields s) (pg_nothing s) (pg_updates s) (pg_rstar s).
-Definition set_insert s v := mkQ (q_cls s) (q_from s) v (q_update s) (q_delete s) (q_with s) (q_selects s) (q_star s) (q_groupbys s) (q_mysql_rollup s) (q_joins s) (my_dups s) (my_ignore s) (pg_conflict s) (pg_fields s) (pg_nothing s) (pg_updates s) (pg_rstar s).
-Definition set_update s v := mkQ (q_cls s) (q_from s) (q_insert s) v (q_delete s) (q_with s) (q_selects s) (q_star s) (q_groupbys s) (q_mysql_rollup s) (q_joins s) (my_dups s) (my_ignore s) (pg_conflict s) (pg_fields s) (pg_nothing s) (pg_updates s) (pg_rstar s).
-Definition set_delete s v := mkQ (q_cls s) (q_from s) (q_insert s) (q_update s) v (q_with s) (q_selects s) (q_star s) (q_groupbys s) (q_mysql_rollup s) (q_joins s) (my_dups s) (my_ignore s) (pg_conflict s) (pg_fields s) (pg_nothing s) (pg_updates s) (pg_rstar s).
-Definition set_with s v := mkQ (q_cls s) (q_from s) (q_insert s) (q_update s) (q_delete s) v (q_selects s) (q_star s) (q_groupbys s) (q_mysql_rollup s) (q_joins s) (my_dups s) (my_ignore s) (pg_conflict s) (pg_fields s) (pg_nothing s) (pg_updates s) (pg_rstar s).
-Definition set_selects s v st := mkQ (q_cls s) (q_from s) (q_insert s) (q_update s) (q_delete s) (q_with s) v st (q_groupbys s) (q_mysql_rollup s) (q_joins s) (my_dups s) (my_ignore s) (pg_conflict s) (pg_fields s) (pg_nothing s) (pg_updates s) (pg_rstar s).
-Definition set_groupbys s v r := mkQ (q_cls s) (q_from s) (q_insert s) (q_update s) (q_delete s) (q_with s) (q_selects s) (q_star s) v r (q_joins s) (my_dups s) (my_ignore s) (pg_conflict s) (pg_fields s) (pg_nothing s) (pg_updates s) (pg_rstar s).
-Definition set_joins s v := mkQ (q_cls s) (q_from s) (q_insert s) (q_update s) (q_delete s) (q_with s) (q_selects s) (q_star s) (q_groupbys s) (q_mysql_rollup s) v (my_dups s) (my_ignore s) (pg_conflict s) (pg_fields s) (pg_nothing s) (pg_updates s) (pg_rstar s).
-Definition set_my s d i := mkQ (q_cls s) (q_from s) (q_insert s) (q_update s) (q_delete s) (q_with s) (q_selects s) (q_star s) (q_groupbys s) (q_mysql_rollup s) (q_joins s) d i (pg_conflict s) (pg_fields s) (pg_nothing s) (pg_updates s) (pg_rstar s).
-Definition set_pg s c f n u r := mkQ (q_cls s) (q_from s) (q_insert s) (q_update s) (q_delete s) (q_with s) (q_selects s) (q_star s) (q_groupbys s) (q_mysql_rollup s) (q_joins s) (my_dups s) (my_ignore s) c f n u r.
+Definition set_from s v := mkQ (q_cls s) v (q_insert s) (q_update s) (q_delete s) (q_with s) (q_selects s) (q_star s) (q_groupbys s) (q_mysql_rollup s) (q_joins s) (q_values s) (q_updates s) (my_dups s) (my_ignore s) (pg_conflict s) (pg_fields s) (pg_nothing s) (pg_updates s) (pg_rstar s).
+Definition set_insert s v := mkQ (q_cls s) (q_from s) v (q_update s) (q_delete s) (q_with s) (q_selects s) (q_star s) (q_groupbys s) (q_mysql_rollup s) (q_joins s) (q_values s) (q_updates s) (my_dups s) (my_ignore s) (pg_conflict s) (pg_fields s) (pg_nothing s) (pg_updates s) (pg_rstar s).
+Definition set_update s v := mkQ (q_cls s) (q_from s) (q_insert s) v (q_delete s) (q_with s) (q_selects s) (q_star s) (q_groupbys s) (q_mysql_rollup s) (q_joins s) (q_values s) (q_updates s) (my_dups s) (my_ignore s) (pg_conflict s) (pg_fields s) (pg_nothing s) (pg_updates s) (pg_rstar s).
+Definition set_delete s v := mkQ (q_cls s) (q_from s) (q_insert s) (q_update s) v (q_with s) (q_selects s) (q_star s) (q_groupbys s) (q_mysql_rollup s) (q_joins s) (q_values s) (q_updates s) (my_dups s) (my_ignore s) (pg_conflict s) (pg_fields s) (pg_nothing s) (pg_updates s) (pg_rstar s).
+Definition set_with s v := mkQ (q_cls s) (q_from s) (q_insert s) (q_update s) (q_delete s) v (q_selects s) (q_star s) (q_groupbys s) (q_mysql_rollup s) (q_joins s) (q_values s) (q_updates s) (my_dups s) (my_ignore s) (pg_conflict s) (pg_fields s) (pg_nothing s) (pg_updates s) (pg_rstar s).
+Definition set_selects s v st := mkQ (q_cls s) (q_from s) (q_insert s) (q_update s) (q_delete s) (q_with s) v st (q_groupbys s) (q_mysql_rollup s) (q_joins s) (q_values s) (q_updates s) (my_dups s) (my_ignore s) (pg_conflict s) (pg_fields s) (pg_nothing s) (pg_updates s) (pg_rstar s).
+Definition set_groupbys s v r := mkQ (q_cls s) (q_from s) (q_insert s) (q_update s) (q_delete s) (q_with s) (q_selects s) (q_star s) v r (q_joins s) (q_values s) (q_updates s) (my_dups s) (my_ignore s) (pg_conflict s) (pg_fields s) (pg_nothing s) (pg_updates s) (pg_rstar s).
+Definition set_joins s v := mkQ (q_cls s) (q_from s) (q_insert s) (q_update s) (q_delete s) (q_with s) (q_selects s) (q_star s) (q_groupbys s) (q_mysql_rollup s) v (q_values s) (q_updates s) (my_dups s) (my_ignore s) (pg_conflict s) (pg_fields s) (pg_nothing s) (pg_updates s) (pg_rstar s).
+Definition set_values s v := mkQ (q_cls s) (q_from s) (q_insert s) (q_update s) (q_delete s) (q_with s) (q_selects s) (q_star s) (q_groupbys s) (q_mysql_rollup s) (q_joins s) v (q_updates s) (my_dups s) (my_ignore s) (pg_conflict s) (pg_fields s) (pg_nothing s) (pg_updates s) (pg_rstar s).
+Definition set_updates s v := mkQ (q_cls s) (q_from s) (q_insert s) (q_update s) (q_delete s) (q_with s) (q_selects s) (q_star s) (q_groupbys s) (q_mysql_rollup s) (q_joins s) (q_values s) v (my_dups s) (my_ignore s) (pg_conflict s) (pg_fields s) (pg_nothing s) (pg_updates s) (pg_rstar s).
+Definition set_my s d i := mkQ (q_cls s) (q_from s) (q_insert s) (q_update s) (q_delete s) (q_with s) (q_selects s) (q_star s) (q_groupbys s) (q_mysql_rollup s) (q_joins s) (q_values s) (q_updates s) d i (pg_conflict s) (pg_fields s) (pg_nothing s) (pg_updates s) (pg_rstar s).
+Definition set_pg s c f n u r := mkQ (q_cls s) (q_from s) (q_insert s) (q_update s) (q_delete s) (q_with s) (q_selects s) (q_star s) (q_groupbys s) (q_mysql_rollup s) (q_joins s) (q_values s) (q_updates s) (my_dups s) (my_ignore s) c f n u r.
 
 (* ---- call arguments, reduced to what the guards look at ---- *)
 Inductive selterm :=
@@ -144,7 +149,7 @@ Inductive joinhow :=
 
 Inductive qcall :=
 | QFrom (t : tbl) | QWith (name : string) | QInto (t : ptab) | QUpdate (t : ptab) | QDelete
-| QSelect (ts : list selterm) | QColumns | QInsert
+| QSelect (ts : list selterm) | QColumns | QInsert (n : nat) | QSet
 | QGroupby (n : nat) | QRollup (mysql : bool) (n : nat)
 | QJoin (item : tbl) (h : joinhow)
 | QOnDupUpdate | QOnDupIgnore                                                   (* MySQL *)
@@ -183,33 +188,30 @@ Fixpoint fold_res {S T} (f : S -> T -> res S) (s : S) (l : list T) : res S :=
   | t :: r => match f s t with Ok s' => fold_res f s' r | Err e => Err e end
   end.
 
+Fixpoint somes {A} (l : list (option A)) : list A :=
+  match l with [] => [] | Some a :: r => a :: somes r | None :: r => somes r end.
+
 (* ---- joins ---- *)
 Definition base_tables (s : qst) : list tref :=
   map Some (q_from s) ++ [option_map TTab (q_update s)] ++ map Some (q_with s).
 
-(* Term.fields_() = set(find_(Field)) (still used by PostgreSQL _validate_returning_term): a *set* of Field objects.  Term.__hash__ is the hash of
-   get_sql(with_alias=True, with_namespace=True) = "<table alias or name>.<name>" (no schema), and Term.__eq__
-   builds a (truthy) criterion, so of several fields with the same rendered key only the first one met survives. *)
 Definition table_name (t : tbl) : string :=
   match t with TTab p => match pt_alias p with Some a => a | None => pt_name p end | TAlq n => n | TSub a => a end.
-Definition field_key (f : jfield) : string :=
-  match fst f with None => snd f | Some t => (table_name t ++ "." ++ snd f)%string end.
-Fixpoint dedup_fields (seen : list string) (l : list jfield) : list jfield :=
-  match l with
-  | [] => []
-  | f :: r => if existsb (String.eqb (field_key f)) seen then dedup_fields seen r
-              else f :: dedup_fields (field_key f :: seen) r
-  end.
 (* nodes_ order: BasicCriterion (and its subclass ComplexCriterion) yields its right operand before its left
    one, so the fields of ((l1 == r1) & (l2 == r2)) & ... come out last-to-first *)
 Definition crit_nodes (crit : list (jfield * jfield)) : list jfield := rev (flat_map (fun p => [fst p; snd p]) crit).
 Definition crit_all_tables (crit : list (jfield * jfield)) : list tref := map fst (crit_nodes crit).
 
+Definition is_alq_ref (t : tref) : bool := match t with Some (TAlq _) => true | _ => false end.
+Fixpoint alqs_of (l : list tref) : list tbl :=
+  match l with [] => [] | Some (TAlq n) :: r => TAlq n :: alqs_of r | _ :: r => alqs_of r end.
+
 (* JoinOn.validate (after a7c7bb0):  criterion_tables = {f.table for f in criterion.find_(Field)}  -- every field;
    missing = criterion_tables - (set(_from) | {join.item for join in _joins} | {self.item}) - {None}; non-empty => raise *)
 Definition validate_on (s : qst) (item : tbl) (crit : list tref) : bool :=
   let available := base_tables s ++ map (fun j => Some (j_item j)) (q_joins s) ++ [Some item] in
-  match filter (fun t => negb (mem t available) && negb (tref_eqb t None)) crit with
+  (* ... and (160d589) AliasedQuery references are left to validate_with() at render time *)
+  match filter (fun t => negb (mem t available) && negb (tref_eqb t None) && negb (is_alq_ref t)) crit with
   | [] => true
   | _ => false
   end.
@@ -217,19 +219,28 @@ Definition validate_on (s : qst) (item : tbl) (crit : list tref) : bool :=
 Fixpoint ptabs_of (l : list tref) : list ptab :=
   match l with [] => [] | Some (TTab p) :: r => p :: ptabs_of r | _ :: r => ptabs_of r end.
 
-(* QueryBuilder.do_join after a successful validate: the "2" alias written onto a Table item that is
-   already among the base tables, then _joins.append *)
+(* QueryBuilder.do_join after a successful validate (10401de): a Table item without alias that is already among the
+   base tables is given the first name "<name><n>", n = 2, 3, ..., that no source of the statement carries; then
+   _joins.append.  taken = alias-or-name of every base table and join item. *)
+Fixpoint first_free (name : string) (taken : list string) (n fuel : nat) : nat :=
+  match fuel with
+  | O => n
+  | S f => if existsb (String.eqb (name ++ nat_to_string n)%string) taken then first_free name taken (S n) f else n
+  end.
 Definition do_join (s : qst) (item : tbl) (crit : option (list tref)) : qst :=
   let base := base_tables s in
   let table_in_query :=
       existsb (fun clause => match clause with Some (TTab _) => mem (Some item) base | _ => false end) base in
+  let taken := map table_name (somes base ++ map j_item (q_joins s)) in
   let item' :=
       match item with
       | TTab p => if is_none (pt_alias p) && table_in_query
-                  then TTab (mkPT (pt_name p) (pt_schema p) (Some (pt_name p ++ "2")%string)) else item
+                  then TTab (mkPT (pt_name p) (pt_schema p)
+                                  (Some (pt_name p ++ nat_to_string (first_free (pt_name p) taken 2 (S (List.length taken))))%string))
+                  else item
       | _ => item
       end in
-  set_joins s (q_joins s ++ [mkJ item' (option_map ptabs_of crit)]).
+  set_joins s (q_joins s ++ [mkJ item' (option_map ptabs_of crit) (alqs_of (odefault [] crit))]).
 
 Definition join_step (s : qst) (item : tbl) (h : joinhow) : res qst :=
   match h with
@@ -266,14 +277,14 @@ Fixpoint rfields (t : rterm) : list (option ptab * string) :=
   | RArith l r => rfields l ++ rfields r
   | _ => []
   end.
-Fixpoint somes {A} (l : list (option A)) : list A :=
-  match l with [] => [] | Some a :: r => a :: somes r | None :: r => somes r end.
 
 Definition is_dml (s : qst) : bool := is_some (q_insert s) || is_some (q_update s) || q_delete s.
 Definition join_tables (s : qst) : list ptab := flat_map (fun j => odefault [] (j_crit j)) (q_joins s).
 
-(* _validate_returning_term over the fields of a term; [tables] = term.tables_ *)
-Definition validate_ret1 (s : qst) (tables : list ptab) (acc : res unit) (f : tref) : res unit :=
+(* _validate_returning_term (after a9c45a1): for every field of the term (find_(Field), no set), judged by its own
+   table:  not (field.table in {insert, update})  and  isinstance(field.table, Table) and field.table not in
+   set(_from) | join criterion tables *)
+Definition validate_ret1 (s : qst) (acc : res unit) (f : tref) : res unit :=
   match acc with
   | Err e => Err e
   | Ok _ =>
@@ -282,42 +293,40 @@ Definition validate_ret1 (s : qst) (tables : list ptab) (acc : res unit) (f : tr
       else
         let in_targets := mem f [option_map TTab (q_insert s); option_map TTab (q_update s)] in
         let join_and_base := q_from s ++ map TTab (join_tables s) in
-        let not_base_or_join := existsb (fun p => negb (existsb (tbl_eqb (TTab p)) join_and_base)) tables in
+        let not_base_or_join :=
+            match f with Some (TTab p) => negb (existsb (tbl_eqb (TTab p)) join_and_base) | _ => false end in
         if negb in_targets && not_base_or_join then Err QueryExc else Ok tt
   end.
-Definition validate_ret (s : qst) (fields : list tref) (tables : list ptab) : res unit :=
-  fold_left (validate_ret1 s tables) fields (Ok tt).
+Definition validate_ret (s : qst) (fields : list tref) : res unit :=
+  fold_left (validate_ret1 s) fields (Ok tt).
 
-(* term.fields_() (a set: see dedup_fields) and term.tables_ (every Table below the term) *)
-Definition rfields_j (t : rterm) : list jfield := map (fun f => (option_map TTab (fst f), snd f)) (rfields t).
-Definition term_fields (t : rterm) : list tref := map fst (dedup_fields [] (rfields_j t)).
-Definition term_tables (t : rterm) : list ptab := somes (map fst (rfields t)).
+Definition term_fields (t : rterm) : list tref := map (fun f => option_map TTab (fst f)) (rfields t).
 
 (* _return_field *)
-Definition return_field (s : qst) (fields : list tref) (tables : list ptab) : res qst :=
+Definition return_field (s : qst) (fields : list tref) : res qst :=
   if pg_rstar s then Ok s
-  else match validate_ret s fields tables with Err e => Err e | Ok _ => Ok s end.
+  else match validate_ret s fields with Err e => Err e | Ok _ => Ok s end.
 
 Definition ret1 (s : qst) (t : rterm) : res qst :=
   match t with
-  | RField _ _ => return_field s (term_fields t) (term_tables t)
+  | RField _ _ => return_field s (term_fields t)
   | RStr true => Ok (set_pg s (pg_conflict s) (pg_fields s) (pg_nothing s) (pg_updates s) true)
   | RStr false =>
       match q_insert s, q_update s with
-      | Some p, _ => return_field s [Some (TTab p)] [p]
-      | None, Some p => return_field s [Some (TTab p)] [p]
+      | Some p, _ => return_field s [Some (TTab p)]
+      | None, Some p => return_field s [Some (TTab p)]
       | None, None =>
           if q_delete s then
             match q_from s with
             | [] => Err IndexErr
-            | f0 :: _ => return_field s [Some f0] (ptabs_of [Some f0])
+            | f0 :: _ => return_field s [Some f0]
             end
           else Err QueryExc
       end
   | RFn _ _ | RArith _ _ =>
       match is_agg t with
       | Some true => Err QueryExc                                   (* if term.is_aggregate: raise *)
-      | _ => match validate_ret s (term_fields t) (term_tables t) with Err e => Err e | Ok _ => Ok s end
+      | _ => match validate_ret s (term_fields t) with Err e => Err e | Ok _ => Ok s end
       end
   | RConst => Ok s
   end.
@@ -330,6 +339,17 @@ Definition py_int (v : topval) : res Z :=
   | TVStrBad => Err "ValueError"
   | TVNone => Err TypeErr
   end.
+
+(* QueryBuilder.get_sql returns "" before anything else for an incomplete statement *)
+Definition renders (s : qst) : bool :=
+  if negb (truthy (q_selects s) || is_some (q_insert s) || q_delete s || is_some (q_update s)) then false
+  else if is_some (q_insert s) && negb (truthy (q_selects s) || q_values s) then false
+  else if is_some (q_update s) && negb (q_updates s) then false
+  else true.
+(* JoinOn.validate_with for every join:  referenced AliasedQuery objects - set(_with) - set(_from) - join items *)
+Definition unknown_with (s : qst) : bool :=
+  existsb (fun j => match filter (fun a => negb (existsb (tbl_eqb a) (q_with s ++ q_from s ++ map j_item (q_joins s)))) (j_alq j)
+                    with [] => false | _ => true end) (q_joins s).
 
 (* ---- the step function of QueryBuilder objects ---- *)
 Definition step_q (s : qst) (c : qcall) : res qst :=
@@ -349,9 +369,16 @@ Definition step_q (s : qst) (c : qcall) : res qst :=
       (* if self._delete_from or self._selects or self._update_table *)
       if q_delete s || truthy (q_selects s) || is_some (q_update s) then Err AttrErr
       else Ok (set_delete s true)
-  | QSelect ts => fold_res sel1 s ts
-  | QColumns | QInsert =>
+  | QSelect ts =>
+      (* 393df3f: if 0 == len(self._from): for term in terms: if isinstance(term, str): raise  -- before the loop *)
+      if Nat.eqb (List.length (q_from s)) 0 && existsb (fun t => match t with SStr _ => true | _ => false end) ts
+      then Err QueryExc else fold_res sel1 s ts
+  | QColumns =>
       if is_none (q_insert s) then Err AttrErr else Ok s   (* if self._insert_table is None *)
+  | QInsert n =>
+      (* _apply_terms: if self._insert_table is None: raise; if not terms: return; self._values.append(...) *)
+      if is_none (q_insert s) then Err AttrErr else Ok (set_values s (q_values s || truthy n))
+  | QSet => Ok (set_updates s true)
   | QGroupby n => Ok (set_groupbys s (q_groupbys s || truthy n) (q_mysql_rollup s))
   | QRollup mysql n =>
       if q_mysql_rollup s then Err AttrErr
@@ -384,14 +411,20 @@ Definition step_q (s : qst) (c : qcall) : res qst :=
       else if truthy (pg_fields s) && truthy (pg_updates s) then Ok s
       else if truthy (pg_fields s) then Ok s
       else Err QueryExc
-  | QReturning ts => fold_res ret1 s ts
+  | QReturning ts =>
+      (* f36e217: if terms and not any([insert, update, delete]): raise -- before the loop *)
+      if truthy (List.length ts) && negb (is_dml s) then Err QueryExc else fold_res ret1 s ts
   | QTop v percent =>
-      (* try: top = int(value)  except (ValueError, TypeError): raise QueryException; then the percent check *)
+      (* try: top = int(value)  except (ValueError, TypeError): raise QueryException;
+         if not isinstance(value, str) and top != value: raise QueryException (bed0bb3); then the percent check *)
       match py_int v with
       | Err e => if String.eqb e "ValueError" || String.eqb e TypeErr then Err QueryExc else Err e
-      | Ok z => if percent && negb (Z.leb 0 z && Z.leb z 100) then Err QueryExc else Ok s
+      | Ok z => if match v with TVFloat _ => true | _ => false end then Err QueryExc
+                else if percent && negb (Z.leb 0 z && Z.leb z 100) then Err QueryExc else Ok s
       end
   | QRender =>
+      (* QueryBuilder.get_sql: the three "return ''" exits, then _validate_with_references(); the dialect's part after it *)
+      if renders s && unknown_with s then Err JoinExc else
       match q_cls s with
       | QPostgres =>
           (* _on_conflict_sql *)
@@ -439,7 +472,21 @@ Definition join_source (s : qst) (item : tbl) (t : tbl) : bool :=
   || existsb (fun j => tbl_eqb t (j_item j)) (q_joins s).
 (* table-less fields name no table at all *)
 Definition names_foreign_table (s : qst) (item : tbl) (crit : list (jfield * jfield)) : bool :=
-  existsb (fun r => match r with None => false | Some t => negb (join_source s item t) end) (crit_all_tables crit).
+  existsb (fun r => match r with
+                    | None => false
+                    | Some (TAlq _) => false       (* a reference to a WITH query is judged when the statement is rendered *)
+                    | Some t => negb (join_source s item t)
+                    end) (crit_all_tables crit).
+(* a complete statement: it has a verb, an INSERT has values or a SELECT, an UPDATE has assignments *)
+Definition is_statement (s : qst) : bool :=
+  (Nat.ltb 0 (q_selects s) || is_some (q_insert s) || q_delete s || is_some (q_update s))
+  && (is_none (q_insert s) || Nat.ltb 0 (q_selects s) || q_values s)
+  && (is_none (q_update s) || q_updates s).
+(* some join criterion refers to a WITH query the statement does not define (nor selects from, nor joins) *)
+Definition refers_unknown_with (s : qst) : bool :=
+  existsb (fun j => existsb (fun a => negb (existsb (tbl_eqb a) (q_with s))
+                                      && negb (existsb (tbl_eqb a) (q_from s))
+                                      && negb (existsb (fun j' => tbl_eqb a (j_item j')) (q_joins s))) (j_alq j)) (q_joins s).
 
 (* RETURNING: fields and strings after a '*' are dropped (like select), so only the effective terms count *)
 Fixpoint effective (star : bool) (ts : list rterm) : list rterm :=
@@ -472,7 +519,7 @@ Definition guards_q : list (guard qx) := [
   ("into_once", (fun x => match x with (s, QInto _) => is_some (q_insert s) | _ => false end), AttrErr);
   ("update_once", (fun x => match x with (s, QUpdate _) => is_some (q_update s) || truthy (q_selects s) || q_delete s | _ => false end), AttrErr);
   ("delete_once", (fun x => match x with (s, QDelete) => q_delete s || truthy (q_selects s) || is_some (q_update s) | _ => false end), AttrErr);
-  ("insert_requires_into", (fun x => match x with (s, QColumns) | (s, QInsert) => is_none (q_insert s) | _ => false end), AttrErr);
+  ("insert_requires_into", (fun x => match x with (s, QColumns) | (s, QInsert _) => is_none (q_insert s) | _ => false end), AttrErr);
   ("select_str_no_from", (fun x => match x with (s, QSelect ts) =>
         Nat.eqb (List.length (q_from s)) 0 && existsb (fun t => match t with SStr _ => true | _ => false end) ts | _ => false end), QueryExc);
   ("rollup_mysql_once", (fun x => match x with (s, QRollup _ _) => q_mysql_rollup s | _ => false end), AttrErr);
@@ -489,6 +536,7 @@ Definition guards_q : list (guard qx) := [
   ("pg_do_update_field_type", (fun x => match x with (_, QDoUpdate UOther) => true | _ => false end), QueryExc);
   ("pg_do_nothing_where", (fun x => match x with (s, QWhere false) => pg_conflict s && pg_nothing s | _ => false end), QueryExc);
   ("pg_fieldless_where", (fun x => match x with (s, QWhere false) => pg_conflict s && Nat.eqb (pg_fields s) 0 | _ => false end), QueryExc);
+  ("join_unknown_with_query", (fun x => match x with (s, QRender) => is_statement s && refers_unknown_with s | _ => false end), JoinExc);
   ("pg_conflict_no_handler", (fun x => match x with (s, QRender) =>
         match q_cls s with QPostgres => Nat.ltb 0 (pg_fields s) && negb (pg_nothing s) && Nat.eqb (pg_updates s) 0 | _ => false end | _ => false end), QueryExc);
   ("pg_fieldless_do_update", (fun x => match x with (s, QRender) =>
@@ -499,22 +547,6 @@ Definition guards_q : list (guard qx) := [
   ("mssql_top_int", (fun x => match x with (_, QTop v _) => negb (is_integer_value v) | _ => false end), QueryExc);
   ("mssql_top_percent", (fun x => match x with (_, QTop v true) => is_integer_value v && negb (Z.leb 0 (top_value v) && Z.leb (top_value v) 100) | _ => false end), QueryExc)
 ].
-
-(* the situations in which the code is known to deviate from the documentation (findings) *)
-Definition keys_coherent (l : list jfield) : bool :=
-  forallb (fun f => forallb (fun g => negb (String.eqb (field_key f) (field_key g)) || tref_eqb (fst f) (fst g)) l) l.
-Definition single_table (t : rterm) : bool :=
-  match term_tables t with [] => true | p :: r => forallb (ptab_eqb p) r end.
-Definition frag_q (s : qst) (c : qcall) : bool :=
-  match c with
-  (* C14-returning findings: RETURNING on a non-DML statement; a term mixing fields of several tables;
-     both an INSERT and an UPDATE target; C14-returning-field-key-shadowing *)
-  | QReturning ts => is_dml s && (is_none (q_insert s) || is_none (q_update s)) && forallb single_table ts
-                     && forallb (fun t => keys_coherent (rfields_j t)) ts
-  (* C14-mssql-top-float: a non-integral float is truncated by int() instead of being rejected *)
-  | QTop v _ => match v with TVFloat _ => false | _ => true end
-  | _ => true
-  end.
 
 (* ========================================================================================== *)
 (* 2. CreateQueryBuilder (+ Vertica)                                                           *)
@@ -530,7 +562,7 @@ Record cst := mkC {
 }.
 Inductive ccall :=
 | CCreateTable | CTemporary | CColumns (n : nat) | CPrimaryKey (n : nat) | CForeignKey (n : nat)
-| CAsSelect (is_query : bool) | CLocal | CPreserveRows.
+| CAsSelect (is_query : bool) | CLocal | CPreserveRows | CUnlogged.
 
 Definition step_c (s : cst) (c : ccall) : res cst :=
   match c with
@@ -555,6 +587,9 @@ Definition step_c (s : cst) (c : ccall) : res cst :=
       if negb (c_vertica s) then Err AttrErr   (* plain CreateQueryBuilder has no such attribute *)
       else if negb (c_temporary s) then Err AttrErr
       else Ok s
+  | CUnlogged =>
+      (* 1e06637: VerticaCreateQueryBuilder.unlogged raises; CreateQueryBuilder.unlogged sets a flag no guard reads *)
+      if c_vertica s then Err AttrErr else Ok s
   end.
 Definition wf_c (s : cst) (c : ccall) : bool :=
   match c with CLocal | CPreserveRows => c_vertica s | _ => true end.
@@ -568,7 +603,8 @@ Definition guards_c : list (guard cx) := [
   ("primary_key_once", (fun x => match x with (s, CPrimaryKey _) => is_some (c_pk s) | _ => false end), AttrErr);
   ("foreign_key_once", (fun x => match x with (s, CForeignKey _) => is_some (c_fk s) | _ => false end), AttrErr);
   ("vertica_local_requires_temporary", (fun x => match x with (s, CLocal) => negb (c_temporary s) | _ => false end), AttrErr);
-  ("vertica_preserve_rows_requires_temporary", (fun x => match x with (s, CPreserveRows) => negb (c_temporary s) | _ => false end), AttrErr)
+  ("vertica_preserve_rows_requires_temporary", (fun x => match x with (s, CPreserveRows) => negb (c_temporary s) | _ => false end), AttrErr);
+  ("vertica_unlogged", (fun x => match x with (s, CUnlogged) => c_vertica s | _ => false end), AttrErr)
 ].
 (* ========================================================================================== *)
 (* 3. DropQueryBuilder (+ ClickHouse)                                                          *)
@@ -736,7 +772,8 @@ Definition expected_raises : list (string * list string) := [
   ("QueryBuilder.into", [AttrErr]); ("QueryBuilder.select", [QueryExc]); ("QueryBuilder.delete", [AttrErr]);
   ("QueryBuilder.update", [AttrErr]); ("QueryBuilder.columns", [AttrErr]); ("QueryBuilder.insert", [AttrErr]);
   ("QueryBuilder.replace", [AttrErr]); ("QueryBuilder.rollup", [AttrErr; RollupExc]);
-  ("QueryBuilder.do_join", [JoinExc]); ("JoinOn.validate", [JoinExc]);
+  ("QueryBuilder.do_join", [JoinExc]); ("QueryBuilder._with_join", [JoinExc]); ("JoinOn.validate", [JoinExc]);
+  ("JoinOn.validate_with", [JoinExc]); ("QueryBuilder._validate_with_references", [JoinExc]); ("QueryBuilder.get_sql", [JoinExc]);
   ("Joiner.on", [JoinExc]); ("Joiner.on_field", [JoinExc]); ("Joiner.using", [JoinExc]);
   ("CreateQueryBuilder.create_table", [AttrErr]); ("CreateQueryBuilder.columns", [AttrErr]);
   ("CreateQueryBuilder.primary_key", [AttrErr]); ("CreateQueryBuilder.foreign_key", [AttrErr]);
@@ -750,10 +787,11 @@ Definition expected_raises : list (string * list string) := [
   ("MySQLQueryBuilder.on_duplicate_key_update", [QueryExc]); ("MySQLQueryBuilder.on_duplicate_key_ignore", [QueryExc]);
   ("PostgreSQLQueryBuilder.on_conflict", [QueryExc]); ("PostgreSQLQueryBuilder.do_nothing", [QueryExc]);
   ("PostgreSQLQueryBuilder.do_update", [QueryExc]); ("PostgreSQLQueryBuilder.where", [QueryExc]);
-  ("PostgreSQLQueryBuilder._on_conflict_sql", [QueryExc]); ("PostgreSQLQueryBuilder.get_sql", [QueryExc]);
+  ("PostgreSQLQueryBuilder._on_conflict_sql", [QueryExc]); ("PostgreSQLQueryBuilder.get_sql", [JoinExc; QueryExc]);
   ("PostgreSQLQueryBuilder.returning", [QueryExc]); ("PostgreSQLQueryBuilder._validate_returning_term", [QueryExc]);
   ("MSSQLQueryBuilder.top", [QueryExc]);
   ("VerticaCreateQueryBuilder.local", [AttrErr]); ("VerticaCreateQueryBuilder.preserve_rows", [AttrErr]);
+  ("VerticaCreateQueryBuilder.unlogged", [AttrErr]);
   ("ClickHouseDropQueryBuilder.on_cluster", [AttrErr]); ("ClickHouseDropQueryBuilder.drop_dictionary", [AttrErr]);
   ("ClickHouseDropQueryBuilder.drop_quota", [AttrErr])
 ].
